@@ -278,6 +278,10 @@ class OutgoingRIB(Cache):
 
         self._pending_withdraws.setdefault(route_family, {})[nlri_index] = (nlri, attrs if attrs else AttrsClass())
 
+        # a copy of the route queued for re-sending (flush / route refresh) must not be sent after it was withdrawn
+        if self._refresh_routes:
+            self._refresh_routes = [r for r in self._refresh_routes if r.index() != route_index]
+
         # Update cache to remove the announced route
         self.update_cache_withdraw(nlri)
 
